@@ -128,6 +128,14 @@ func Eval(t *Term, env map[string]Val, memo map[int]Val) (Val, bool) {
 		r.F = math.Abs(args[0].F)
 	case "fsqrt":
 		r.F = f32(math.Sqrt(args[0].F))
+	case "ffloor":
+		r.F = math.Floor(args[0].F)
+	case "fceil":
+		r.F = math.Ceil(args[0].F)
+	case "ftrunc":
+		r.F = math.Trunc(args[0].F)
+	case "fround":
+		r.F = math.Round(args[0].F)
 	case "fmax":
 		r.F = math.Max(args[0].F, args[1].F)
 	case "fmin":
